@@ -507,20 +507,5 @@ def run(ctx):
     #      operator scan (">=" -> GE, ">" -> GT, "<=" -> LE, "<" -> LT, searched over the whole pattern) and about the bounds compiled from it
     #      (D1-SLICES: each bound carries the operator and the version text recorded for it -- "a two-bound pattern matches exactly when both of
     #      its single-bound halves match") is shared here as instances of this check.
-    import rules.c02 as c02
-    from check import Ctx, Record
-    sub = Ctx("C02", ctx.tier, ctx.fx)
-    sub.inline_set = ctx.inline_set
-    sub.desugar = bool(getattr(c02, "DESUGAR", False))
-    try:
-        c02.run(sub)
-        shared = [r for r in sub.records if r.rule in ("D1-SCAN", "D1-SLICES") and not r.instance.startswith("floor:")]
-    except Exception:
-        shared = None
-    if not shared:
-        ctx.violation("OPS-TOKENS", "dewey::Dewey::new", "operator-scan", "the operator scan of Dewey::new could not be evaluated", "")
-    else:
-        for r in shared:
-            ctx.records.append(Record("OPS-TOKENS", r.item, "%s:%s" % (r.rule, r.instance), r.verdict, r.detail, r.span, False))
-    ctx.floor("OPS-TOKENS", "dewey::Dewey::new", "shared operator-scan rule instances", len(shared or []), 4)
+    share_rules(ctx, "C02", ("D1-SCAN", "D1-SLICES"), "OPS-TOKENS", "dewey::Dewey::new", 4)
 
